@@ -19,3 +19,33 @@ package config
 //@   loop#2 invariant forall j int :: 0 <= j && j < len(conf.Integrations) ==> conf.Integrations[j] == old(conf.Integrations[j])
 //@   loop#2 invariant forall x string :: rangevisited[x] && has(uniq, x) ==> (exists k int witness len(res) - 1 :: 0 <= k && k < len(res) && res[k].Name == x)
 //@   ensures [file-complete] result1 == nil ==> (forall j int :: 0 <= j && j < len(conf.Integrations) ==> (exists k int :: 0 <= k && k < len(result0) && result0[k].Name == conf.Integrations[j].Name))
+
+// C16: tables shared by several integrations get the union of their columns:
+// a's columns are kept in place, every column name of b is present.
+//@ func union props=C16
+//@   requires cap(a.Columns) == 0 || len(b.Columns) == 0 || base(a.Columns) != base(b.Columns)
+//@   ensures [keeps-a] len(result.Columns) >= len(old(a.Columns)) && (forall k int :: 0 <= k && k < len(old(a.Columns)) ==> result.Columns[k] == old(a.Columns[k]))
+//@   ensures [has-b] forall i int :: 0 <= i && i < len(b.Columns) ==> (exists k int :: 0 <= k && k < len(result.Columns) && result.Columns[k].Name == old(b.Columns[i].Name))
+//@   ensures [only-a-or-b] forall k int :: 0 <= k && k < len(result.Columns) ==> (exists j int :: 0 <= j && j < len(old(a.Columns)) && result.Columns[k].Name == old(a.Columns[j].Name)) || (exists i int :: 0 <= i && i < len(b.Columns) && result.Columns[k].Name == old(b.Columns[i].Name))
+//@   ensures [name] result.Name == old(a.Name)
+//@   loop#0 invariant a.Name == old(a.Name)
+//@   loop#0 invariant len(a.Columns) >= len(old(a.Columns)) && (forall k int :: 0 <= k && k < len(old(a.Columns)) ==> a.Columns[k] == old(a.Columns[k]))
+//@   loop#0 invariant cap(a.Columns) == 0 || len(b.Columns) == 0 || base(a.Columns) != base(b.Columns)
+//@   loop#0 invariant forall i int :: 0 <= i && i < len(b.Columns) ==> b.Columns[i] == old(b.Columns[i])
+//@   loop#0 invariant forall i int :: 0 <= i && i <= rangeindex ==> (exists k int witness len(a.Columns) - 1, j :: 0 <= k && k < len(a.Columns) && a.Columns[k].Name == b.Columns[i].Name)
+//@   loop#0 invariant forall k int :: 0 <= k && k < len(a.Columns) ==> (exists j int witness k :: 0 <= j && j < len(old(a.Columns)) && a.Columns[k].Name == old(a.Columns[j].Name)) || (exists i int witness rangeindex :: 0 <= i && i < len(b.Columns) && a.Columns[k].Name == b.Columns[i].Name)
+
+// C16: the default unique key is exactly the identity columns the table has.
+//@ spec hasCol(t *wpg.Table, name string) bool = exists j int :: 0 <= j && j < len((*t).Columns) && (*t).Columns[j].Name == name
+//@ spec idcol(c int) string = c == 0 ? "ig_name" : (c == 1 ? "src_name" : (c == 2 ? "block_num" : (c == 3 ? "tx_idx" : (c == 4 ? "log_idx" : (c == 5 ? "abi_idx" : "trace_action_idx")))))
+//@ func AddUniqueIndex props=C16
+//@   requires table != nil
+//@   ensures [default-covers] old(len((*table).Unique)) == 0 ==> (forall c int :: 0 <= c && c < 7 && hasCol(table, idcol(c)) ==> len((*table).Unique) == 1 && (exists q int :: 0 <= q && q < len((*table).Unique[0]) && (*table).Unique[0][q] == idcol(c)))
+//@   ensures [default-only] old(len((*table).Unique)) == 0 && len((*table).Unique) > 0 ==> len((*table).Unique) == 1 && (forall q int :: 0 <= q && q < len((*table).Unique[0]) ==> (exists c int :: 0 <= c && c < 7 && (*table).Unique[0][q] == idcol(c) && hasCol(table, idcol(c))))
+//@   ensures [user-key-kept] old(len((*table).Unique)) > 0 ==> (*table).Unique == old((*table).Unique)
+//@   ensures [columns-kept] (*table).Columns == old((*table).Columns)
+//@   loop#0 invariant len(possible) == 7 && possible[0] == "ig_name" && possible[1] == "src_name" && possible[2] == "block_num" && possible[3] == "tx_idx" && possible[4] == "log_idx" && possible[5] == "abi_idx" && possible[6] == "trace_action_idx"
+//@   loop#0 invariant cap(uidx) == 0 || base(uidx) != base(possible)
+//@   loop#0 invariant forall c int :: 0 <= c && c <= rangeindex && hasCol(table, possible[c]) ==> (exists q int witness len(uidx) - 1 :: 0 <= q && q < len(uidx) && uidx[q] == possible[c])
+//@   loop#0 invariant forall q int :: 0 <= q && q < len(uidx) ==> (exists c int witness rangeindex :: 0 <= c && c <= rangeindex && uidx[q] == possible[c] && hasCol(table, possible[c]))
+//@   loop#1 invariant forall j0 int :: 0 <= j0 && j0 <= rangeindex ==> (*table).Columns[j0].Name != possible[i]
